@@ -57,6 +57,26 @@ def _short(a):
 
 
 def make_sketch(cfg, shared_memory=False):
+    sk = _make_sketch(cfg, shared_memory)
+    # the properties speak about the parameters the caller configured: the sketch must carry exactly those
+    k = cfg["kind"]
+    want = {}
+    if k in ("linear", "log16", "log8", "hh"):
+        want.update(width=cfg["width"], depth=cfg["depth"])
+    if k in ("log16", "log8"):
+        want.update(max_count=cfg.get("max_count", CEIL), num_reserved=cfg.get("num_reserved", 1023 if k == "log16" else 15))
+    if k == "hh":
+        want.update(max_key_len=cfg["max_key_len"])
+    if k == "hll":
+        want.update(p=cfg["p"])
+    for name, v in want.items():
+        got = getattr(sk, name, None)
+        if got is not None and int(got) != int(v):
+            raise Violation(f"{k} sketch requested with {name}={v} was built with {name}={int(got)} ({cfg})", "constructed-parameters-differ")
+    return sk
+
+
+def _make_sketch(cfg, shared_memory=False):
     k = cfg["kind"]
     if cfg.get("factory") and k in ("linear", "log16", "log8"):
         # the documented way to build a count-min sketch: the CountMin() convenience function
@@ -398,7 +418,9 @@ class World:
             return touched
         if op == "save_load":
             self.nfile += 1
-            path = os.path.join(self.tmp, f"s{self.nfile}.npz")
+            slot = step.get("slot")
+            # a slot is a checkpoint path that is written again and again (whatever an earlier save left there is overwritten)
+            path = os.path.join(self.tmp, f"s{self.nfile}.npz" if slot is None else f"slot{slot}.npz")
             sut(sk.save, path)
             via = step.get("via", "class")
             shm = bool(step.get("shm", False))
@@ -406,7 +428,10 @@ class World:
                 new = sut(cmmod.load, path, shm)
             else:
                 new = sut(CLASS_OF[self.kind].load, path, shm)
-            os.unlink(path)
+            if slot is None:
+                os.unlink(path)
+            else:
+                self.flags.add("save_over_existing_file")
             if type(new) is not CLASS_OF[self.kind]:
                 raise Violation(f"load returned {type(new).__name__}, saved {CLASS_OF[self.kind].__name__}", "load-class")
             self.sk[i] = new
